@@ -164,6 +164,20 @@ def run_ps(W, cfg):
     for k, (r, c) in enumerate(cells):
         if cfg['bits'] >> k & 1:
             mask[r, c] = (0.5 + ((r + 2 * c) % 3) / 4.0) if cfg.get('weights') else 1
+    def mask_dtypes_ok():
+        import numpy as _np
+        if cfg.get('weights'):
+            return True
+        ref = _np.asarray(W.lentil.power_spectrum(mask.astype(float), 1.0, 2.0, 4.0, 3, seed=5), dtype=float)
+        oth = _np.asarray(W.lentil.power_spectrum(mask.astype(float), 1.0, 2.0, 4.0, 3, seed=6), dtype=float)
+        if _np.array_equal(ref, oth):
+            return False                      # different seeds, same draw
+        for dt in ('int64', 'uint8', 'bool'):
+            got_ = _np.asarray(W.lentil.power_spectrum(mask.astype(dt), 1.0, 2.0, 4.0, 3, seed=5), dtype=float)
+            if got_.shape != ref.shape or not _np.allclose(got_, ref, rtol=1e-9, atol=1e-12):
+                return False
+        return True
+    W.ob_concrete('a 0/1 mask held as integers or booleans gives the same surface as the same mask held as floats (and seeds still matter)', mask_dtypes_ok)
     rms = W.real('rms', pos=True)
     seed = W.int('seed', 0, 1 << 30)
     n_ev0 = len(W.rng_events())
